@@ -74,8 +74,12 @@ def run(pid, tier):
         elif o["trace"]:
             traces.append(o["trace"])
             tdocs.append(text)
-    tr_, verdicts = tracev.validate("trace/Trace_ParserLoop", "Trace_ParserLoop.cfg", traces, "c01")
-    ctx.ev.add_tlc("Trace_ParserLoop (%d parses, %d with requeues)" % (len(traces), sum(1 for o in res if o["requeues"])), tr_)
+    verdicts = []
+    for b0 in range(0, len(traces), 25000):                  # batches: one TLC start per 25 000 recorded parses
+        tr_, vb = tracev.validate("trace/Trace_ParserLoop", "Trace_ParserLoop.cfg", traces[b0:b0 + 25000], "c01_%d" % b0, timeout=5400)
+        ctx.ev.add_tlc("Trace_ParserLoop (%d parses)" % len(traces[b0:b0 + 25000]), tr_)
+        verdicts += vb
+    ctx.ev.parts["parses_validated_against_ParserLoop"] = {"parses": len(traces), "with_requeues": sum(1 for o in res if o["requeues"])}
     ctx.ev.cov["traces_validated_against_impl"] = len(traces)
     for text, t, v in zip(tdocs, traces, verdicts):
         if v["v"] != "ACCEPT":
